@@ -8,7 +8,7 @@ THOROUGH_CONFIGS = ['dot']
 
 
 MANIFEST = {
-    "text": "Static decision of the byte-conservation mechanisms: the error fallback tables of FilterBodyAction::filter/end (in_error => chunk returned unchanged; an internal error sets in_error and returns the chunk, and bytes held by the stages must be flushed first); Result discipline (no Result of the filter / tokenizer layer is dropped or turned into an Option); token-byte conservation in the HTML filter loop (every token's raw text reaches the output, the active buffer, a visitor or the held-back buffer on every non-error path); flush order at end of stream (buffers oldest first, held-back tail last); the gating tables (content type, content encoding, empty chain) and the agreement of the encoding name tables; insert-only visitors always return their input; the carry-over discipline of the held-back tail between chunks (shared with C03). Byte-for-byte equality on arbitrary malformed input is not decided.",
+    "text": "Static decision of the byte-conservation mechanisms: the error fallback tables of FilterBodyAction::filter/end (in_error => chunk returned unchanged; an internal error sets in_error and returns the chunk, and bytes held by the stages must be flushed first); Result discipline (no Result of the filter / tokenizer layer is dropped or turned into an Option); token-byte conservation in the HTML filter loop (every token's raw text reaches the output, the active buffer, a visitor or the held-back buffer on every non-error path); flush order at end of stream (buffers oldest first, held-back tail last); the gating tables (content type, content encoding, empty chain) and the agreement of the encoding name tables; insert-only visitors always return their input; the carry-over discipline of the held-back tail between chunks (shared with C03). Byte-for-byte equality on arbitrary malformed input is not decided. Also (round 5): end() runs no visitor — enter / leave are called by the start-tag / end-tag handlers only.",
     "technique": "static analysis: decision tables, dropped-result analysis and def-to-sink must-use over MIR",
 }
 
